@@ -1,10 +1,15 @@
 package main
 
-// tryReplay turns a sat model into inputs for the real code where possible
-// (see replay_gen.go); rep is the replay file content being built.
+// tryReplay turns a model of the failed obligation into inputs for the real
+// code where possible (see replay_gen.go); rep is the replay file content being built.
 func (eng *Engine) tryReplay(prop string, o *Obligation, rep map[string]any) {
-	if o.Result != "sat" || o.VC == nil {
+	if o.VC == nil || o.Result == "unsat" {
 		return
 	}
+	defer func() {
+		if r := recover(); r != nil {
+			rep["replay_skipped"] = "replayer error: " + fmtAny(r)
+		}
+	}()
 	eng.replayModel(prop, o, rep)
 }
